@@ -46,15 +46,15 @@ theorem hasBackslash_map (l : List CP) : hasBackslash (l.map (reflag f g)) = has
   | nil => rfl
   | cons c r ih => simp [hasBackslash, ih]
 
-theorem litAscii_map (l : List CP) : litAscii (l.map (reflag f g)) = litAscii l := by
-  fun_induction litAscii l
+theorem litBytes_map (l : List CP) : litBytes (l.map (reflag f g)) = litBytes l := by
+  fun_induction litBytes l
   all_goals simp only [List.map_cons, List.map_nil]
-  all_goals rw [litAscii.eq_def]
+  all_goals rw [litBytes.eq_def]
   all_goals simp_all
   all_goals exact ⟨rfl, rfl⟩
 
 theorem litKind_map (l : List CP) : litKind (l.map (reflag f g)) = litKind l := by
-  simp [litKind, hasBackslash_map, litAscii_map]
+  simp [litKind, hasBackslash_map, litBytes_map]
 
 theorem lexString_map (l : List CP) : lexString (l.map (reflag f g)) = lexString l := by
   simp [lexString, strBody_map, ← List.map_take, litKind_map]
